@@ -388,7 +388,8 @@ def run(rep):
         th.parameters.update(par)
         x = 10 ** rng.uniform(-5, math.log10(0.3))
         # a sixth of the evolved draws within a few per cent of the input scale (evolution just switched on)
-        Q2 = Q02 if rng.random() < 0.25 else Q02 * ((1 + 10 ** rng.uniform(-4, -1.3)) if rng.random() < 0.17 else 10 ** rng.uniform(0, 2))
+        # every seventh case just above the input scale (deterministically, so that every run has several)
+        Q2 = Q02 * (1 + 10 ** rng.uniform(-3, -1.5)) if done % 7 == 3 else (Q02 if rng.random() < 0.25 else Q02 * 10 ** rng.uniform(0, 2))
         t = rng.uniform(-1, 0)
         asf, asr = couplings(th, Q2)
         tag = 'p=%d/%s' % (p, scheme)
@@ -553,7 +554,7 @@ def run(rep):
         par = random_pars(rng)
         th.parameters.update(par)
         x = 10 ** rng.uniform(-5, math.log10(0.3))
-        Q2 = 4.0 * ((1 + 10 ** rng.uniform(-4, -1.3)) if rng.random() < 0.17 else 10 ** rng.uniform(0, 2))
+        Q2 = 4.0 * ((1 + 10 ** rng.uniform(-3, -1.5)) if i % 4 == 1 else 10 ** rng.uniform(0, 2))
         f2 = float(th.DISF2(g.DataPoint({'xB': x, 'Q2': Q2})))
         hpt, hpoint = used_point({'x': x, 'eta': 0, 't': 0, 'Q2': Q2})
         hx = th.Hx(hpt)
